@@ -922,6 +922,118 @@ static void do_cc(char *line)
     ABT_finalize();
 }
 
+/* ------------------------------------------------------------ RC cases */
+/* RC <env> ; <ms>    two streams set different keys on one fresh ULT; the first
+ * setter wins the NULL -> LOCKED CAS and its table allocation is made to fail
+ * (posix_memalign wrapped at link time, harness built with -DVH_RACE) after
+ * the second setter has been released into the spin loop.  Needs a table size
+ * for which ABTI_ktable_create uses ABTU_malloc (>= 16). */
+#ifdef VH_RACE
+#include <errno.h>
+#include <time.h>
+int __real_posix_memalign(void **p, size_t al, size_t sz);
+static volatile int g_fail_armed, g_in_create, g_fail_ms;
+static volatile size_t g_fail_size;
+int __wrap_posix_memalign(void **p, size_t al, size_t sz)
+{
+    if (g_fail_armed && sz == g_fail_size &&
+        __sync_bool_compare_and_swap(&g_fail_armed, 1, 0)) {
+        struct timespec ts;
+        g_in_create = 1; /* the caller holds ABTI_KTABLE_LOCKED now */
+        __sync_synchronize();
+        ts.tv_sec = 0;
+        ts.tv_nsec = (long)g_fail_ms * 1000000L;
+        nanosleep(&ts, NULL);
+        return ENOMEM;
+    }
+    return __real_posix_memalign(p, al, sz);
+}
+static struct {
+    ABT_thread target;
+    ABT_key k1, k2;
+    volatile int rc_a, rc_b, rc_a2;
+} g_rc;
+static void rc_creator(void *arg)
+{
+    (void)arg;
+    g_fail_armed = 1;
+    __sync_synchronize();
+    g_rc.rc_a = ABT_thread_set_specific(g_rc.target, g_rc.k1, (void *)11);
+    /* a retry after the failed run behaves like a first run */
+    g_rc.rc_a2 = ABT_thread_set_specific(g_rc.target, g_rc.k1, (void *)12);
+}
+static void rc_loser(void *arg)
+{
+    (void)arg;
+    while (!g_in_create)
+        ;
+    __sync_synchronize();
+    g_rc.rc_b = ABT_thread_set_specific(g_rc.target, g_rc.k2, (void *)22);
+}
+static void do_rc(char *line)
+{
+    char env[32];
+    int ms;
+    if (sscanf(line, "RC %31s ; %d", env, &ms) != 2)
+        VH_DIE("bad RC line");
+    set_env(env);
+    ABT_init(0, NULL);
+    ABTI_global *gl = ABTI_global_get_global();
+    outf(0, "RC n=%u", gl->key_table_size);
+    g_fail_size = ABTU_roundup_size(
+        ABTU_roundup_size(offsetof(ABTI_ktable, p_elems) +
+                              sizeof(ABTD_atomic_ptr) * gl->key_table_size,
+                          ABTU_MAX_ALIGNMENT) +
+            sizeof(ABTI_ktable_mem_header),
+        ABT_CONFIG_STATIC_CACHELINE_SIZE);
+    g_fail_ms = ms;
+    ABT_xstream xs[2], xself;
+    ABT_pool pools[2], pool0;
+    int e;
+    ABT_xstream_self(&xself);
+    ABT_xstream_get_main_pools(xself, 1, &pool0);
+    for (e = 0; e < 2; e++) {
+        ABT_xstream_create(ABT_SCHED_NULL, &xs[e]);
+        ABT_xstream_get_main_pools(xs[e], 1, &pools[e]);
+    }
+    ABT_key_create(dtor1, &g_rc.k1);
+    ABT_key_create(dtor2, &g_rc.k2);
+    volatile int stop = 0;
+    ABT_thread a, b;
+    ABT_thread_create(pool0, cc_idle, (void *)&stop, ABT_THREAD_ATTR_NULL,
+                      &g_rc.target);
+    g_rc.rc_a = g_rc.rc_b = g_rc.rc_a2 = -1;
+    ABT_thread_create(pools[1], rc_loser, NULL, ABT_THREAD_ATTR_NULL, &b);
+    ABT_thread_create(pools[0], rc_creator, NULL, ABT_THREAD_ATTR_NULL, &a);
+    ABT_thread_free(&a);
+    ABT_thread_free(&b);
+    void *v1 = NULL, *v2 = NULL;
+    ABT_thread_get_specific(g_rc.target, g_rc.k1, &v1);
+    ABT_thread_get_specific(g_rc.target, g_rc.k2, &v2);
+    outf(0, " injected=%d creator=c%d loser=c%d retry=c%d get1=%ld get2=%ld",
+         g_in_create, g_rc.rc_a, g_rc.rc_b, g_rc.rc_a2, (long)(intptr_t)v1,
+         (long)(intptr_t)v2);
+    stop = 1;
+    g_force_lane = 0;
+    ABT_thread_free(&g_rc.target);
+    g_force_lane = -1;
+    outf(0, " dtors=%d", g_nd[0]);
+    ABT_key_free(&g_rc.k1);
+    ABT_key_free(&g_rc.k2);
+    for (e = 0; e < 2; e++) {
+        ABT_xstream_join(xs[e]);
+        ABT_xstream_free(&xs[e]);
+    }
+    ABT_finalize();
+}
+#else
+static void do_rc(char *line)
+{
+    (void)line;
+    VH_DIE("RC cases need the harness built with -DVH_RACE");
+}
+#endif
+
 /* ------------------------------------------------------------ driver */
 static void on_alarm(int sig)
 {
@@ -974,6 +1086,8 @@ static void run_case(char *line)
         do_wb(line);
     else if (!strncmp(line, "CC", 2))
         do_cc(line);
+    else if (!strncmp(line, "RC", 2))
+        do_rc(line);
     else
         VH_DIE("bad line");
     g_slot = MAXOPS + 2;
@@ -1009,7 +1123,7 @@ int main(int argc, char **argv)
             continue;
         }
         fflush(stdout);
-        if (nofork) {
+        if (nofork && strncmp(line, "RC", 2)) {
             signal(SIGALRM, on_alarm);
             alarm(getenv("VH_ALARM") ? atoi(getenv("VH_ALARM")) : 60);
             run_case(line);
